@@ -9,7 +9,7 @@ TRUSTED = [
 ASSUMPTIONS = [
     "scheduler fairness; 'promptly' is rendered as 'at quiescence' in the model and as 'within 10 s' in the harness",
     "C04_split carries the exact hypothesis under which closing Split outputs releases the splitter: the output that started it is closed or the user's context ends (otherwise refuted: known finding C04:Split:starter-abandoned)",
-    "exhaust mode (C04_finite_input_eof) is proved for the pump networks and stated for the others; every construct's exhaust runs are exercised by the harness and by the executable model on every case",
+    "exhaust mode: C04_finite_input_eof / C04_progress_exhaust are proved for every construct family under complete_ok (>= 1 worker / output, one input per MergeIterators goroutine, end-of-stream generator); termination under a fair scheduler is not proved (no fairness notion in the development)",
 ]
 EXPLANATION = ("Theorems in coq/Props/C04.v: for every construct, input, worker count, buffer size, cut point and interleaving, once the stop action "
                "(cancel | Close | Close-then-cancel) happened every reachable quiescent state has no running goroutine and nobody parked in once.Do; "
@@ -45,9 +45,10 @@ LEVEL_TEXT = ("Machine-checked Coq theorems over GoLite networks (any input, wor
 LEVEL_NOTE = ("Partial in DESIGN's sense: channel hand-off, WaitGroup, context tree (cancellation reaches derived contexts atomically) and goroutine "
               "exit are model primitives; goroutine exit on the real code is observed by the stack-polling oracle only (10 s bounds, never short "
               "sleeps). The tie is outcome-level per scenario (leak count / stuck / EOF vs. the executable model's outcome for the same scenario). "
-              "C04_finite_input_eof is proved in full for the single-pump constructs and for GenerateParallel (C04_finite_input_eof_generate, "
-              "C04_progress_exhaust_generate: deadlock freedom + delivered ~ input, any n >= 1, input, schedule); for Map / ProcessParallel / ParallelBuffer "
-              "/ Split / MergeIterators it is a statement + executable check (model and real code), not a theorem; "
+              "C04_finite_input_eof and C04_progress_exhaust are now THEOREMS for every construct family (Map, ProcessParallel, ParallelBuffer, Buffer, "
+              "Chain & co., BufferedChannel, MergeIterators, GenerateParallel, Split; any worker count, buffer size, input, interleaving; side conditions "
+              "complete_ok as for C01_complete): an un-aborted run that can go no further has every goroutine returned, nobody parked in once.Do, and "
+              "delivered a permutation of the input - i.e. every reachable non-terminal state has an enabled step; "
               "termination (no infinite un-aborted run) is not proved. Blocking sources of the blocked-close/-cancel scenarios are represented in "
               "the model by a pump blocked in its ctx-guarded send.")
 TECHNIQUE = "Coq proof (static guard check + context invariant + enabledness lemma over a small-step semantics) + goroutine-leak oracle on real runs, outcomes compared with the executable model under vm_compute"
